@@ -204,7 +204,9 @@ def op_term(op, st):
             return "(OpSetItem None)"
         return "(OpSetItem (Some [" + "; ".join(f"({cz(o)}, {czl(hexl(h))})" for o, h in st['pokes']) + "]))"
     if k == 'setmode':
-        return f"(OpSetMode {MODE_COQ[op['mode']]})"
+        if op['mode'] not in MODE_COQ:
+            return "(OpSetMode None)"          # an invalid mode string
+        return f"(OpSetMode (Some {MODE_COQ[op['mode']]}))"
     if k == 'reopen':
         return f"(OpReopen {MODE_COQ[op['mode']]})"
     if k == 'metaset':
@@ -423,6 +425,14 @@ def mk_op(letter, rng, nt, bo, tail):
     if letter == 'it0d':     # the failing chunk is the first one and is a 0-d array
         return dict(op='iterappend', items=[nd_spec(small_values(rng, (), own)),
                                             nd_spec(rand_array(rng, nt, bo, (1,) + t))])
+    if letter == 'abad0':    # wrong trailing shape / rank but ZERO elements: still incompatible
+        cands = [(0,) + t + (2,), (0, 7) if t != (7,) else (0, 5), (2, 0) if t != (0,) else (2, 1)]
+        if t:
+            cands.append((3,) + tuple(0 for _ in t))
+        bad = rng.choice([c for c in cands if tuple(c[1:]) != t])
+        return dict(op='append', items=[nd_spec(np.zeros(bad, dtype=own))])
+    if letter == 'mbad':     # not a mode: refused, the handle keeps working in its old mode
+        return dict(op='setmode', mode=rng.choice(['w', 'a', 'rb', 'x']))
     if letter == 'abad':
         bad = (2,) + t + (2,) if rng.random() < 0.5 else (2,) + tuple(x + 1 for x in t) if t else (2, 2)
         return dict(op='append', items=[nd_spec(small_values(rng, bad, own))])
@@ -474,10 +484,10 @@ def mk_op(letter, rng, nt, bo, tail):
     raise ValueError(letter)
 
 
-ALPHABET = ['a0', 'a1', 'a2l', 'asc', 'aod', 'asw', 'a0d', 'abad', 'it2', 'it0', 'itl', 'itbad', 'it0d',
-            't-1', 't0', 't1', 'tbig', 't-big', 'tni', 'set', 'ro', 'mr', 'mrw', 'ms', 'mc']
-COMPACT = ['a1', 'aod', 'asw', 'a0d', 'abad', 'it2', 'it0', 'itbad', 't-1', 't0', 't1', 'tbig', 't-big', 'tni',
-           'set', 'ro', 'mr']
+ALPHABET = ['a0', 'a1', 'a2l', 'asc', 'aod', 'asw', 'a0d', 'abad', 'abad0', 'it2', 'it0', 'itl', 'itbad', 'it0d',
+            't-1', 't0', 't1', 'tbig', 't-big', 'tni', 'set', 'ro', 'mr', 'mrw', 'mbad', 'ms', 'mc']
+COMPACT = ['a1', 'aod', 'asw', 'a0d', 'abad', 'abad0', 'it2', 'it0', 'itbad', 't-1', 't0', 't1', 'tbig', 't-big', 'tni',
+           'set', 'ro', 'mr', 'mbad']
 
 
 def history_case(rng, nt, bo, shape, letters, mode='r+', metadata=None, layout='C'):
